@@ -201,3 +201,76 @@ FACETS = [
     Facet('torch/overlap', f_overlap, strategy=lambda t: st_overlap('torch', 3), examples={'quick': 300, 'thorough': 10000}, shards={'quick': 1, 'thorough': 4}, backend='torch'),
     Facet('torch/get_prob', f_get_prob, strategy=lambda t: st_get_prob('torch', 3), examples={'quick': 100, 'thorough': 4000}, backend='torch'),
 ]
+
+
+def f_history(case):
+    """one state object: expectation queries interleaved with in-place evolutions; every answer must refer to the *current* state."""
+    be, N = case['be'], case['N']
+    Bk = B.backend(be)
+    S, c = C.dec_state(be, case['state'])
+    L, K, r = C.state_rows(case['state'])
+    nq = 0
+    for i, stp in enumerate(case['steps']):
+        t = stp['t']
+        rho = ref.dense_state_from_rows(L, K, r)
+        if t == 'expect':
+            OL, OK = ref.parse_list(stp['obs'])
+            OK = (OK // 2) * 2
+            xs = Bk.num(S.expect(Bk.plist(OL, OK)))
+            exp = np.array([np.trace(rho @ ref.dense(l, k)) for l, k in zip(OL, OK)])
+            nq += 1
+            check(np.allclose(xs, exp, atol=_tol(be)), 'step %d: expect(%s) = %s expected %s after the history %s' % (i, ref.show_list(OL, OK), xs.tolist(), np.real(exp).tolist(), [x['t'] for x in case['steps'][:i]]), 'history-expect')
+        elif t == 'expect-own':
+            # its own stabilizer-group elements (non-zero expectations): product of a selection of active stabilizers
+            l = np.zeros(N, dtype=np.int64); k = 0
+            for a, b in zip(range(r, N), stp['sel']):
+                if b:
+                    l, k = ref.pmul(l, k, L[a], K[a])
+            val = complex(Bk.num(S.expect(Bk.pauli(l, k))))
+            nq += 1
+            check(abs(val - 1) < 10 * _tol(be), 'step %d: expectation of the group element %s of the current state is %r' % (i, ref.show(l, k), val), 'history-expect')
+        elif t == 'overlap':
+            if r != 0:
+                continue
+            O, _ = C.dec_state(be, stp['other'])
+            val = complex(Bk.num(S.expect(O)))
+            exp = complex(np.trace(rho @ C.dense_state(stp['other'])))
+            nq += 1
+            check(abs(val - exp) < 10 * _tol(be), 'step %d: overlap = %r expected %r' % (i, val, exp), 'history-overlap')
+        elif t == 'transform':
+            q = stp['qubits']
+            small = C.dec_clifford(stp['rows'])
+            if len(q) == N and not stp['usemask']:
+                S.transform_by(Bk.cmap(small))
+            else:
+                S.transform_by(Bk.cmap(small), Bk.mask(q, N))
+            L, K = small.embed(q, N).apply(L, K)
+        elif t == 'rotate':
+            q = stp['qubits']
+            gl, gk = ref.parse(stp['gen'])
+            if len(q) == N and not stp['usemask']:
+                S.rotate_by(Bk.pauli(gl, gk))
+            else:
+                S.rotate_by(Bk.pauli(gl, gk), Bk.mask(q, N))
+            L, K = ref.rotate_rule(L, K, ref.embed_letters(gl, q, N), gk)
+    ts = [x['t'] for x in case['steps']]
+    q = [i for i, x in enumerate(ts) if x in ('expect', 'expect-own', 'overlap')]
+    return {'nt': len(q) >= 2 and any(x in ('transform', 'rotate') for x in ts[q[0]:q[-1]]), 'labels': ['N=%d' % N, 'queries=%d' % min(nq, 5)]}
+
+
+def st_history(be, hiN):
+    def inner(N):
+        sub = st.integers(1, N).flatmap(lambda n: st.tuples(gen.st_subset(N, n), st.just(n)))
+        query = st.one_of(st.fixed_dictionaries({'t': st.just('expect'), 'obs': gen.st_pauli_list(N, 1, 4)}),
+                          st.fixed_dictionaries({'t': st.just('expect-own'), 'sel': st.lists(st.booleans(), min_size=N, max_size=N)}),
+                          st.fixed_dictionaries({'t': st.just('overlap'), 'other': gen.st_state(N)}))
+        evo = st.one_of(
+            sub.flatmap(lambda t: st.fixed_dictionaries({'t': st.just('transform'), 'qubits': st.just(t[0]), 'rows': gen.st_clifford_rows(t[1]), 'usemask': st.booleans()})),
+            sub.flatmap(lambda t: st.fixed_dictionaries({'t': st.just('rotate'), 'qubits': st.just(t[0]), 'gen': gen.st_herm(t[1], nonidentity=True), 'usemask': st.booleans()})))
+        mid = st.lists(st.one_of(evo, evo, query), min_size=1, max_size=6)
+        return st.fixed_dictionaries({'be': st.just(be), 'N': st.just(N), 'state': gen.st_state(N), 'steps': st.tuples(query, mid, query).map(lambda t: [t[0]] + t[1] + [t[2]])})
+    return st.integers(1, hiN).flatmap(inner)
+
+
+FACETS.append(Facet('np/state-histories', f_history, strategy=lambda t: st_history('np', 4), examples={'quick': 800, 'thorough': 40000}, shards={'quick': 2, 'thorough': 8}))
+FACETS.append(Facet('torch/state-histories', f_history, strategy=lambda t: st_history('torch', 3), examples={'quick': 200, 'thorough': 8000}, shards={'quick': 1, 'thorough': 4}, backend='torch'))
